@@ -1316,6 +1316,14 @@ DECOMP = ("snappy", "lz4", "gzip", "zstd")
 
 
 def judge(c, out):
+    """robust wrapper: driver output that cannot be interpreted is a violation with the case as replay"""
+    try:
+        return _judge(c, out)
+    except Exception as e:                      # noqa: BLE001
+        return "VIOL", f"driver output cannot be interpreted ({type(e).__name__}): {out[:200]!r}"
+
+
+def _judge(c, out):
     """-> (class, detail): class in OK ERR UB FAULT TIMEOUT VIOL SKIP.  Checks the reported sizes again on
     this side (the driver checks them too): defence against a driver edited into agreeing."""
     t = out.split()
@@ -1696,7 +1704,10 @@ def model_tie(rep, pool, tier):
             rep.tie_broken(f"model runner {eng} died (rc={pr[1]}): {pr[2][-300:]}", pr[3])
         for ((c, li, k, d, raw), ml), ans in zip(lst, outs):
             st = summary.setdefault(c.op, {"compared": 0, "agree": 0, "skipped": 0, "engine": eng})
-            mv = _model_view(c, ans)
+            try:
+                mv = _model_view(c, ans)
+            except Exception:                   # noqa: BLE001
+                mv = ("RUNNER", None, None)
             if mv[0] in ("SKIP",) or ans.startswith("FAULT died"):
                 st["skipped"] += 1
                 continue
@@ -1705,7 +1716,11 @@ def model_tie(rep, pool, tier):
                 continue
             if k not in ("OK", "ERR"):
                 continue                      # already a violation (or UB) on the implementation side
-            iv = _impl_view(c, k, d, raw)
+            try:
+                iv = _impl_view(c, k, d, raw)
+            except Exception:                   # noqa: BLE001
+                rep.violation(f"{c.op}: driver output cannot be interpreted: {raw[:200]!r}", {"case": li, "entry_point": c.op})
+                continue
             st["compared"] += 1
             same = (iv[0] == mv[0]) and (iv[1] is None or mv[1] is None or iv[1] == mv[1]) and \
                    (iv[2] is None or mv[2] is None or iv[2] == mv[2])
